@@ -71,7 +71,20 @@ struct Client {
 
 impl Client {
     fn connect(front: SocketAddr) -> Result<Client, String> {
-        let tls = tls_connect(front, "localhost", &["h2"], IO_TIMEOUT).map_err(|e| e.to_string())?;
+        // generous timeout for the handshake (a loaded machine), short read timeout afterwards
+        let mut last = String::new();
+        let mut tls = None;
+        for _ in 0..3 {
+            match tls_connect(front, "localhost", &["h2"], Duration::from_secs(2)) {
+                Ok(t) => {
+                    tls = Some(t);
+                    break;
+                }
+                Err(e) => last = e.to_string(),
+            }
+        }
+        let tls = tls.ok_or(last)?;
+        let _ = tls.sock.set_read_timeout(Some(IO_TIMEOUT));
         if tls.conn.alpn_protocol() != Some(b"h2") {
             return Err("ALPN h2 not negotiated".into());
         }
@@ -279,7 +292,7 @@ fn build_cases(seed: u64, thorough: bool) -> Vec<Case> {
     let mut cases = vec![];
     let ping = frame(6, 0, 0, &[1, 2, 3, 4, 5, 6, 7, 8]);
     // --- single frames after the handshake, judged by the model's decoder
-    let n = if thorough { 30000 } else { 700 };
+    let n = if thorough { 12000 } else { 700 };
     for i in 0..n {
         let mut rng = Rng::for_case(seed, i);
         let f = gen_single(&mut rng);
@@ -417,8 +430,8 @@ fn run_case(bed: &Bed, case: &Case, model: &[String]) -> Verdict {
     let end = match &case.expect {
         Expect::Decode { .. } => c.read_until(CASE_DEADLINE, |fs| fs.iter().any(|f| f.ty == 7 || (f.ty == 6 && f.flags & 1 != 0))),
         Expect::Rst(_) => c.read_until(CASE_DEADLINE, |fs| fs.iter().any(|f| f.ty == 7 || f.ty == 3)),
-        Expect::StreamLimit => c.read_until(Duration::from_millis(600), |fs| fs.iter().filter(|f| f.ty == 3).count() >= 20 || fs.iter().any(|f| f.ty == 7)),
-        Expect::FirstSettings => c.read_until(Duration::from_millis(400), |fs| fs.iter().any(|f| f.ty == 7) || fs.iter().any(|f| f.ty == 4 && f.flags & 1 != 0)),
+        Expect::StreamLimit => c.read_until(CASE_DEADLINE, |fs| fs.iter().filter(|f| f.ty == 3).count() >= 20 || fs.iter().any(|f| f.ty == 7)),
+        Expect::FirstSettings => c.read_until(CASE_DEADLINE, |fs| fs.iter().any(|f| f.ty == 7) || fs.iter().any(|f| f.ty == 4 && f.flags & 1 != 0)),
         _ => c.read_until(CASE_DEADLINE, |fs| fs.iter().any(|f| f.ty == 7)),
     };
     let goaway = c.goaway();
@@ -542,7 +555,40 @@ fn main() {
         }
     };
 
-    let cases = build_cases(args.seed, thorough);
+    let mut cases = build_cases(args.seed, thorough);
+    if let Some(path) = &args.replay {
+        // replay: only the named case(s) of a `h2conn <name> …` replay file; a replay file of
+        // the in-process binary (h2wire) holds nothing for this one
+        let names: Vec<String> = read_replay_ops(path)
+            .iter()
+            .filter_map(|o| o.strip_prefix("h2conn ").map(|r| r.split(' ').next().unwrap_or("").to_string()))
+            .collect();
+        let ping = frame(6, 0, 0, &[1, 2, 3, 4, 5, 6, 7, 8]);
+        cases = names
+            .iter()
+            .filter_map(|n| {
+                if let Some(h) = n.strip_prefix("single:") {
+                    let f = unhex(h);
+                    if f.len() < 9 {
+                        return None;
+                    }
+                    let sid = u32::from_be_bytes([f[5], f[6], f[7], f[8]]) & 0x7fff_ffff;
+                    let l = ((f[0] as u32) << 16) | ((f[1] as u32) << 8) | f[2] as u32;
+                    let mut send = f.clone();
+                    send.extend(&ping);
+                    Some(Case {
+                        name: n.clone(),
+                        send,
+                        raw_hello: false,
+                        model_ops: vec![format!("decode 16384 {}", hex(&f))],
+                        expect: Expect::Decode { exact: sid == 0 || l > 16384 },
+                    })
+                } else {
+                    build_cases(args.seed, false).into_iter().find(|c| &c.name == n)
+                }
+            })
+            .collect();
+    }
     // model verdicts, one driver run
     let mut input = String::new();
     for (i, c) in cases.iter().enumerate() {
